@@ -136,7 +136,7 @@ func newHarnessRun(name string, fn *ssa.Function, prog *ssa.Program, opts Harnes
 	if r.maxSteps == 0 {
 		r.maxSteps = 50_000_000
 	}
-	r.maxAlloc = 1 << 16
+	r.maxAlloc = 1 << 18
 	r.maxSymIndex = 1024
 	r.noMerge = opts.NoMerge
 	if r.opts.MaxPaths == 0 {
